@@ -109,8 +109,10 @@ prop(
 
 prop(
     id="C17",
-    stages=[dict(name="c17seq", pkg="c01", test="TestC17Seq", access=[RUN_ACCESS, WORKERS_ACCESS], timeout_quick=300, timeout_thorough=3000)],
-    rule="random sequences (0-60 ops, some 500-2000) of Stats.Record (success/fail/dropped/unknown; durations 1ns..1h) with Snapshot and Total anywhere "
+    stages=[dict(name="c17seq", pkg="c01", test="TestC17Seq", access=[RUN_ACCESS, WORKERS_ACCESS], timeout_quick=300, timeout_thorough=3000),
+            dict(name="c17measured", pkg="c01", test="TestC17Measured", access=[RUN_ACCESS, WORKERS_ACCESS], timeout_quick=300, timeout_thorough=3000)],
+    rule="single iterations on the real ActiveScenario whose body spends 0.3-3ms by its own clock and then ends by return, Fail, FailNow, Fatalf, a failed require or a panic: the recorded duration (min = max = mean) lies "
+         "between the body's own time and the time the Run call took (predicate measured_ok, both one-sided); random sequences (0-60 ops, some 500-2000) of Stats.Record (success/fail/dropped/unknown; durations 1ns..1h) with Snapshot and Total anywhere "
          "(leading, consecutive); every field of every snapshot compared exactly with the sequential model; non-trivial = >= 2 snapshots in the sequence; distinct = distinct op sequences",
     assumptions=["sequential use (one goroutine); durations positive and sums below 2^63"],
 )
@@ -151,9 +153,10 @@ prop(
 prop(
     id="C16",
     stages=[dict(name="c16comp", pkg="c16", test="TestC16Component", access=[WORKERS_ACCESS, RUN_ACCESS], timeout_quick=300, timeout_thorough=3000),
-            dict(name="c16runs", pkg="c16", test="TestC16Runs", access=[WORKERS_ACCESS, RUN_ACCESS], timeout_quick=300, timeout_thorough=3000)],
+            dict(name="c16runs", pkg="c16", test="TestC16Runs", access=[WORKERS_ACCESS, RUN_ACCESS], timeout_quick=300, timeout_thorough=3000),
+            dict(name="c16conc", pkg="c16", test="TestC16Concurrent", access=[WORKERS_ACCESS, RUN_ACCESS], timeout_quick=300, timeout_thorough=3000)],
     rule="random static label maps (0-7 keys from a pool with colliding prefixes and case variants; values equal to other keys, empty, non-ASCII) on private registries; "
-         "1-3 consecutive runs per instance with outcome mixes incl. drops and setup failures, (a) through the real ActiveScenario with the reset Run.Do performs, (b) through whole Run.Do runs; "
+         "1-3 consecutive runs per instance with outcome mixes incl. drops and setup failures, (a) through the real ActiveScenario with the reset Run.Do performs, (b) through whole Run.Do runs, (c) 2-12 workers recording different outcomes at the same time on an instance with static labels; "
          "Registry.Gather() canonicalised to (family, name/value pairs sorted by name, sample count) and compared exactly with the model; non-trivial = at least two static labels; distinct = distinct cases",
     assumptions=["prometheus client: WithLabelValues pairs the i-th value with the i-th declared label name; Reset drops all series; Observe adds one sample (modelled)",
                  "label maps have distinct keys (Go map)"],
@@ -190,10 +193,11 @@ prop(
 prop(
     id="C15",
     stages=[dict(name="c14config", pkg="c14", test="TestC14Config", access=[FILE_ACCESS], timeout_quick=300, timeout_thorough=3000),
-            dict(name="c15runs", pkg="c15", test="TestC15Runs", access=[FILE_ACCESS, RUN_ACCESS, WORKERS_ACCESS], timeout_quick=300, timeout_thorough=3000)],
+            dict(name="c15runs", pkg="c15", test="TestC15Runs", access=[RUN_ACCESS, WORKERS_ACCESS], timeout_quick=300, timeout_thorough=3000),
+            dict(name="c15trigger", pkg="c15", test="TestC15Trigger", access=[RUN_ACCESS, WORKERS_ACCESS], timeout_quick=300, timeout_thorough=3000)],
     rule="(a) generated configs (1-5 stages, all modes, random omissions, defaults) x now at every interesting instant relative to stage-start (before, each stage boundary +-1ns, after the end) "
          "against ParseConfigFile: kept stages, per-stage duration / tick interval / users / parameters, total duration and limits compared exactly; (b) real file-triggered runs with short stages whose bodies read "
-         "the environment at entry: stage order, parameters present while a stage triggers, none set after Run.Do; non-trivial = config with stage-start and >= 2 stages / file run with >= 2 stages; distinct = distinct cases",
+         "the environment at entry: stage order, parameters present while a stage triggers, none set after Run.Do; (c) the trigger as the CLI builds it (file.Rate(...).New) from configs whose stage-start lies in the real past: its total duration is the sum of all stage durations (predicate c15_trigger_ok); non-trivial = config with stage-start and >= 2 stages / file run with >= 2 stages; distinct = distinct cases",
     assumptions=["YAML decoding is library code (model starts at the decoded value)",
                  "os.Setenv/Unsetenv semantics; the environment is process-global, so the run-time part uses keys private to the harness"],
 )
@@ -224,14 +228,16 @@ prop(
 
 prop(
     id="C18",
-    stages=[dict(name="c18", pkg="c18", test="TestC18", access=[], timeout_quick=300, timeout_thorough=3000)],
+    stages=[dict(name="c18", pkg="c18", test="TestC18", access=[], instrument=True,
+                 drift=["internal/raterun/runner.go::" + f for f in ["Runner.Restart", "Runner.Start", "Runner.Start.go", "Runner.Stop", "newSchedules", "schedules.start", "schedules.stop"]],
+                 timeout_quick=300, timeout_thorough=3000)],
     rule="real raterun.Runner with 1-3 schedules (distinct frequencies 2-9ms, start delays 0-30ms), function durations 0-12ms, 0-2 Restarts at random instants, ending by Stop (75%) or by cancelling the context; "
          "in a third of the runs one invocation is held by the harness and Stop is called while it executes; the totally ordered event log (Start, FnStart k, FnEnd, Restart, StopCalled, StopReturned, Cancel) must be admissible "
          "for the extracted checker runner_trace_ok; harness-side: Stop must not return while the held invocation runs, goroutine-leak check after Stop/cancel, one-sided bound invocations <= elapsed/frequency + 2; extracted checker runner_times_ok: an invocation carrying schedule k's frequency never happens before Start + start delays up to k + one period of k (40% of the runs put a slow schedule behind a fast one with a function that overruns the fast ticks); "
          "non-trivial = run with a Restart or a held invocation; distinct = distinct logs",
     assumptions=["Go timers/tickers never fire early (one-sided timing only)", "select picks any ready case; channel/close semantics as modelled",
                  "premise of the model: the first schedule's StartDelay is shorter than the 1h placeholder ticker",
-                 "the checker runner_trace_ok accepts a superset of the model's visible traces (conservative on schedule indices after a Restart); this inclusion is not proved"],
+                 "Go's select picks uniformly among ready cases (a buffered Restart is taken within 60 passes except with probability < 1e-7)"],
 )
 
 POOL_STAGE = dict(name="c02pool", pkg="c02", test="TestC02Pool", access=[WORKERS_ACCESS, RUN_ACCESS], timeout_quick=300, timeout_thorough=3000)
